@@ -238,6 +238,11 @@ def detect(model, with_mfl=True):
         for dose in comp.doses:
             doses.append((int(dose.admid), str(dose.amount)))
     d['doses'] = tuple(sorted(doses))
+    # lag time / bioavailability on a compartment that receives no dose
+    d['orphans'] = tuple(sorted(
+        f'{name}:{what}' for name in odes.compartment_names for what, neutral in (('lag_time', 0), ('bioavailability', 1))
+        if not odes.find_compartment(name).doses and getattr(odes.find_compartment(name), what) != neutral
+    ))
     d['central'] = guard(lambda: odes.central_compartment, allowed=allowed(), clause='detector:central_compartment').name
     d['stranded'] = tuple(sorted(n for n in odes.compartment_names if odes.find_compartment(n).doses and not _reaches(odes, n, d['central'])))
     if with_mfl:
@@ -521,6 +526,62 @@ def run_sequence(spec):
         return _run(start, reqs, pts, corpus.get(start), Model)
 
 
+def _check_pk_step(req, m, m1, d0, undef0, pts, ctx, classes):
+    nev = 0
+    try:
+        d1 = detect(m1)
+    except Reject as r:
+        # a detector refusing (ValueError) a model that a setter returned: the feature is not reported
+        raise Violation(f'detect:detector-refuses:{req.cat}', observed=r.why, detail=ctx)
+    except Violation as v:
+        v.detail = f'{ctx}; {v.detail}'
+        raise
+    nev += 1
+    # ---- detect ----------------------------------------------------------------------
+    # (detectors are defined for structural PK models: after a metabolite / PD extension only totality and code
+    # generation are asserted for further requests)
+    v = check_requested(req, d0, d1, m1)
+    if v is not None:
+        v.detail = f'{ctx}; {v.detail}'
+        raise v
+    # ---- doses: features concern rate / delay / elimination / distribution, never the administered amount --------
+    if d1['doses'] != d0['doses']:
+        raise Violation(f'doses-changed:{req.fname}', observed=list(d1['doses']), expected=list(d0['doses']), detail=f'{ctx}: (admid, amount) of all doses; ODE system now {_ode_str(m1)}')
+    if d1['stranded'] and not d0['stranded']:
+        raise Violation(f'dose-does-not-reach-central:{req.fname}', observed=list(d1['stranded']), expected=[], detail=f'{ctx}: ODE system now {_ode_str(m1)}')
+    # lag time and bioavailability belong to dose compartments (add_lag_time: "Add lag time to the dose compartment",
+    # add_bioavailability: "for the first dose compartment")
+    new_orphans = sorted(set(d1['orphans']) - set(d0['orphans']))
+    if new_orphans:
+        raise Violation(f'lag-or-bioavailability-without-dose:{req.fname}', observed=new_orphans, expected=[], detail=f'{ctx}: ODE system now {_ode_str(m1)}')
+    # ---- well-formed: everything the model function reads has a value -----------------------
+    undef1 = undefined_names(m1, pts[0])
+    new_undef = sorted(set(undef1) - set(undef0))
+    if new_undef:
+        raise Violation(
+            f'undefined-symbol:{req.fname}', observed={k: undef1[k] for k in new_undef}, expected='every symbol used by the model is defined',
+            detail=f'{ctx}: the returned model uses symbols without definition (what -> missing symbol)',
+        )
+    nev += 1
+    # ---- other categories ----------------------------------------------------------------
+    coupled = False
+    for cat in CATS[:6]:
+        if cat == req.cat or d0[cat] == d1[cat]:
+            continue
+        coupled = True
+        doc = coupling_doc(req, cat)
+        if doc is not None:
+            classes.append(f'documented-coupling:{req.label}:{cat}')
+        elif GROUP[req.cat] == GROUP[cat] or GROUP[req.cat] == 'ext':
+            classes.append(f'undocumented-coupling:{req.label}:{cat}')
+        else:
+            raise Violation(
+                f'other-category-changed:{req.cat}->{cat}', observed=d1[cat], expected=d0[cat],
+                detail=f'{ctx}; features before {d0["mfl"]["string"]} after {d1["mfl"]["string"]}',
+            )
+    return d1, undef1, nev
+
+
 def _run(start, reqs, pts, m, Model):
     classes = []
     outcomes = []
@@ -557,53 +618,15 @@ def _run(start, reqs, pts, m, Model):
         if not isinstance(m1, Model):
             raise Violation(f'not-total:{req.fname}:returned-{type(m1).__name__}', detail=f'{start}: {outcomes} then {req.label}')
         ctx = f'{start}: {[o for o in outcomes]} then {req.label}'
-        try:
-            d1 = detect(m1)
-        except Reject as r:
-            # a detector refusing (ValueError) a model that a setter returned: the feature is not reported
-            raise Violation(f'detect:detector-refuses:{req.cat}', observed=r.why, detail=ctx)
-        except Violation as v:
-            v.detail = f'{ctx}; {v.detail}'
-            raise
-        evals += 1
+        # after a metabolite / PD extension only totality and code generation are asserted for further requests
+        # (the detectors and the feature categories are defined for structural PK models)
         pk_only = ext_family is None
-        # ---- detect ----------------------------------------------------------------------
-        # (detectors are defined for structural PK models: after a metabolite / PD extension only totality and code
-        # generation are asserted for further requests)
-        v = check_requested(req, d0, d1, m1) if pk_only else None
-        if v is not None:
-            v.detail = f'{ctx}; {v.detail}'
-            raise v
-        # ---- doses: features concern rate / delay / elimination / distribution, never the administered amount --------
-        if d1['doses'] != d0['doses']:
-            raise Violation(f'doses-changed:{req.fname}', observed=list(d1['doses']), expected=list(d0['doses']), detail=f'{ctx}: (admid, amount) of all doses; ODE system now {_ode_str(m1)}')
-        if d1['stranded'] and not d0['stranded']:
-            raise Violation(f'dose-does-not-reach-central:{req.fname}', observed=list(d1['stranded']), expected=[], detail=f'{ctx}: ODE system now {_ode_str(m1)}')
-        # ---- well-formed: everything the model function reads has a value -----------------------
-        undef1 = undefined_names(m1, pts[0])
-        new_undef = sorted(set(undef1) - set(undef0))
-        if new_undef:
-            raise Violation(
-                f'undefined-symbol:{req.fname}', observed={k: undef1[k] for k in new_undef}, expected='every symbol used by the model is defined',
-                detail=f'{ctx}: the returned model uses symbols without definition (what -> missing symbol)',
-            )
-        evals += 1
-        # ---- other categories ----------------------------------------------------------------
-        coupled = False
-        for cat in CATS[:6]:
-            if cat == req.cat or d0[cat] == d1[cat] or not pk_only:
-                continue
-            coupled = True
-            doc = coupling_doc(req, cat)
-            if doc is not None:
-                classes.append(f'documented-coupling:{req.label}:{cat}')
-            elif GROUP[req.cat] == GROUP[cat] or GROUP[req.cat] == 'ext':
-                classes.append(f'undocumented-coupling:{req.label}:{cat}')
-            else:
-                raise Violation(
-                    f'other-category-changed:{req.cat}->{cat}', observed=d1[cat], expected=d0[cat],
-                    detail=f'{ctx}; features before {d0["mfl"]["string"]} after {d1["mfl"]["string"]}',
-                )
+        if pk_only:
+            d1, undef1, nev = _check_pk_step(req, m, m1, d0, undef0, pts, ctx, classes)
+            evals += nev
+        else:
+            d1, undef1 = d0, undef0
+            classes.append('after-extension:total-only')
         # ---- codegen ---------------------------------------------------------------------------
         try:
             m1u = guard(m1.update_source, allowed=allowed(), clause=f'codegen:update_source:after-{req.fname}')
@@ -646,9 +669,9 @@ def _run(start, reqs, pts, m, Model):
         # ---- reversibility ------------------------------------------------------------------------
         if start in REV_STARTS and ext_family is None and req.cat != 'EXT':
             u = undo_for(req, d0, d1)
-            if u is not None and req.cat == 'ABSORPTION' and not (start == 'basic_iv' or any(r.cat == 'ABSORPTION' for r in succeeded)):
+            if u is not None and req.cat == 'ABSORPTION' and start != 'basic_iv':
                 # the depot parameters of basic_oral (MAT with IIV) come from create_basic_pk_model, not from a setter:
-                # setters never add IIVs, so "restores" is not well defined there
+                # setters never add IIVs, so "restores" is not well defined when a setter removes and re-creates them
                 u = None
                 classes.append('undo-skipped:absorption-not-from-setter')
             others_same = all(d0[c] == d1[c] for c in CATS[:6] if c != req.cat)
